@@ -6,6 +6,12 @@ CLAIMED = {
  # id: (level text, level note)
  "C07": ("Deductive proof over the real code: AreDistinctHeadersContradicting's result equals the LIP-0014 contradiction relation (spec function transcribed from the LIP) for all 2^192 header field combinations and all generator-equality outcomes; symmetry and different-generator lemmas are proved over that spec, hence over the code; fork-choice predicates equal their LIP-0014 definitions. Tests sample a few dozen header pairs; the obligations quantify over all of them.",
          "Interface getters are assumed pure (deterministic in the receiver); bytes.Equal is an assumed symmetric predicate on slice identities; the 'never flagged for an honest generator / always flagged inside the window' history part is only decided per call."),
+ "C04": ("Deductive proof over the real code of the guards that make finality irreversible: deleteBlock succeeds only for a block strictly above the stored finalized height and checks this before any write; the finalized height handed to Chain.AddBlock by processValidated equals max(stored, maxHeightPrecommitted) (never lower), is staged in the same batch as the block, and the finalize event is published exactly when the height is raised; rejected blocks perform no database write and publish nothing. All paths of these functions, all argument values.",
+         "Callees are used through contracts: liskbft API reads, DataAccess reads, diffdb commit/revert, ABI bridge, pebble batch write, event emitter are trusted stubs with ghost call records (listed in evidence); the induction 'guards hold at every step => finalized prefix never changes' over histories is not mechanised; sync callers of deleteBlock are not yet under contract."),
+ "C06": ("Deductive proof over the real code of aggregate-commit acceptance: verifyAggregateCommit returns nil only if the commit is empty at maxHeightCertified, or both parts are non-empty with maxHeightCertified < height <= maxHeightPrecommitted, height <= next-BFT-parameter height - 1 when one exists, and the weighted aggregate verification was performed on the node's own block certificate of that height with that height's certificate threshold and with each weight bound to its BLS key; BLSVerifyWeightedAggSig returns true only if the weights of the set bits reach the threshold (loop invariant over a recursive sum spec) and never indexes outside the bitmap; Bits.read/write bit semantics.",
+         "BLS pairing primitives (blst, cgo) are uninterpreted and assumed not to panic; sort.Slice is assumed to permute in place and sort by the comparator; liskbft API reads and BLS-key uniqueness inside a parameter set are assumed (trusted stubs); GetAggregateCommit self-consistency and the single-commit pool admission path are not yet under contract."),
+ "C13": ("Deductive proof over the real code of the single-batch discipline: Chain.AddBlock and Chain.RemoveBlock perform exactly one database write, of the batch they were handed, and none on error; processValidated and deleteBlock reach the database only through that one call (ghost write counter on db.DB.Write/Set/Del), and the consensus-store commit / revert is staged into the very batch that is written with the block.",
+         "Atomicity and durability of one pebble batch (Apply with Sync) is assumed, crash points inside pebble are not enumerated; saveBlock/removeBlock key-level content is a trusted stub; genesis path and PrepareCache are not yet under contract."),
  "C19": ("Deductive proof over the real code of the peer-selection filters and height lists: every peer kept by the maxHeightPrevoted (resp. height) filter has a value >= every offered peer, the filters never return an empty list for a non-empty input, getLastHeights/getHeightWithGap return strictly the documented descending lists and never a height below the given minimum (loop invariants, unbounded list length).",
          "Completeness of the filters (every maximal peer is kept) and the most-frequent-block-ID filter are not decided yet (quantifier alternation / map iteration); RPC handlers and convergence are not covered; heights are assumed < 2^31 and gap/num small (stated as preconditions)."),
  "C08": ("Deductive proof over the real code of the varint layer: readUint accepts exactly the canonical (shortest, terminated, <= 10 bytes, 10th byte <= 1) LEB128 strings, returns their value, and is complete for every canonical string (10-way unrolling with a discharged unwinding assertion, so unbounded in the input); varintShortestSize equals the LIP-0027 length function; key decoding accepts exactly wire types 0/2.",
